@@ -696,3 +696,45 @@ func expandModset(pkg, text string, depth int) ([]string, error) {
 	}
 	return out, nil
 }
+
+// Text renders a spec node back to source-like text (used to label split obligations).
+func (n *SNode) Text() string {
+	if n == nil {
+		return ""
+	}
+	switch n.Op {
+	case "ident":
+		return n.Name
+	case "int":
+		return fmt.Sprint(n.Int)
+	case "str":
+		return strconv.Quote(n.Name)
+	case "bool":
+		return n.Name
+	case "nil":
+		return "nil"
+	case "sel":
+		return n.Args[0].Text() + "." + n.Name
+	case "index":
+		return n.Args[0].Text() + "[" + n.Args[1].Text() + "]"
+	case "un":
+		return n.Name + n.Args[0].Text()
+	case "bin":
+		return "(" + n.Args[0].Text() + " " + n.Name + " " + n.Args[1].Text() + ")"
+	case "old":
+		return "old(" + n.Args[0].Text() + ")"
+	case "call":
+		var as []string
+		for _, a := range n.Args {
+			as = append(as, a.Text())
+		}
+		return n.Name + "(" + strings.Join(as, ", ") + ")"
+	case "forall", "exists":
+		var vs []string
+		for _, v := range n.Vars {
+			vs = append(vs, strings.TrimSpace(v.Name+" "+v.Type))
+		}
+		return "(" + n.Op + " " + strings.Join(vs, ", ") + " :: " + n.Args[0].Text() + ")"
+	}
+	return "?"
+}
